@@ -47,6 +47,10 @@ def rand_float(r):
 # whose names a macro implementation might use itself, and expressions whose value depends on the order of
 # evaluation — "an unquoted Rust expression contributes exactly Value::from(expr) at its position".
 EXTRA = [
+    # the same call site evaluated more than once: every evaluation builds its value from the current expressions
+    ('{ fn point(x: i32, y: i32) -> lexpr::Value { sexp!(#(point ,x ,y)) } let _first = point(1, 2); point(3, 4) }', '#(point 3 4)'),
+    ('{ fn pair(x: i32) -> lexpr::Value { sexp!((k #(v ,x) . ,x)) } let _first = pair(1); pair(7) }', '(k #(v 7) . 7)'),
+    ('{ let mut out = Vec::new(); for i in 0..3 { out.push(sexp!(#(,i (a ,i)))); } out.pop().unwrap() }', '#(2 (a 2))'),
     ('{ let tail = String::from("x"); let rest = 5; sexp!((,(tail.clone()) . ,rest)) }', '("x" . 5)'),
     ('{ let tail = String::from("x"); let list = "l"; sexp!((,(tail.clone()) ,list . 7)) }', '("x" "l" . 7)'),
     ('{ let elements = 7u8; let value = \'v\'; let head = true; let vec = "v"; sexp!(#(,elements ,value ,head ,vec)) }', '#(7 #\\v #t "v")'),
@@ -132,6 +136,16 @@ def adjacency_cases():
     prevs = [("foo", "foo", ["i" + hx("foo")]), ("#:key", "#:key", ["p35j", "p58a", "i" + hx("key")]), (":k", "#:k", ["p58a", "i" + hx("k")]),
              ("\"s\"", "\"s\"", ["ls%s/%s" % (hx("s"), hx("s"))]), ("7", "7", ["li7"]), ("#t", "#t", ["p35a", "i" + hx("t")])]
     out = []
+    # a quoted one-character name is a symbol whatever follows it (`#"-" 5` is the symbol - and the number 5)
+    for q in ["-", ":", "+", "."]:
+        for (nsrc, ntext, ntoks) in [("5", "5", ["li5"]), ("1.5", "1.5", ["lf15e-1"]), ("foo", "foo", ["i" + hx("foo")]), ("\"s\"", "\"s\"", ["ls%s/%s" % (hx("s"), hx("s"))])]:
+            if q == ".":
+                continue
+            a = Node('#"%s"' % q, q, ["p35a", "ls%s/%s" % (hx(q), hx(q))])
+            b = Node(nsrc, ntext, ntoks)
+            inner = a.toks + b.toks
+            out.append(Node("(" + a.src + " " + b.src + ")", "(" + a.text + " " + b.text + ")", ["g%d" % len(inner)] + inner))
+            out.append(Node("#(" + a.src + " " + b.src + ")", "#(" + a.text + " " + b.text + ")", ["p35a", "g%d" % len(inner)] + inner))
     for p in PUNCT:
         for (psrc, ptext, ptoks) in prevs:
             a = Node(psrc, ptext, ptoks)
